@@ -56,3 +56,19 @@ define_language! {
         Num(u32),
     }
 }
+
+define_language! {
+    /// Q: NAMED operators with payload fields (`(lit 7)`, `(tag foo <child>)`), next to plain payload leaves (C18: what is
+    /// printed for such a node must parse back)
+    pub enum Q {
+        Tag(Symbol, AppliedId) = "tag",
+        Const(Symbol) = "const",
+        Lit(u32) = "lit",
+        Two(u32, Symbol, AppliedId, AppliedId) = "two",
+        V(Slot) = "v",
+        Lam(Bind<AppliedId>) = "lam",
+        C() = "c",
+        Num(u32),
+        Sym(Symbol),
+    }
+}
